@@ -260,6 +260,14 @@ def calcProbDists [Add K] [Mul K] [Div K] [Zero K] [LT K] [DecidableLT K] (eps :
   if tmp.length % numSched ≠ 0 then throw .reshape
   pure ((chunks (tmp.length / numSched) numSched tmp).map (truncNorm eps))
 
+/-- `calc_prob_dist(qope, schedule_index)` = `calc_prob_dists(qope)[schedule_index]` (IndexError ⇒ `Err.index`) -/
+def calcProbDist [Add K] [Mul K] [Div K] [Zero K] [LT K] [DecidableLT K] (eps : K) (numSched : Nat)
+    (cs : List (Coeff K)) (var : List K) (i : Nat) : Except Err (List K) := do
+  let ds ← calcProbDists eps numSched cs var
+  match ds[i]? with
+  | some d => pure d
+  | none => throw .index
+
 /-! ## driver -/
 
 def parseVecL? (s : String) : Option (List Rat) := parseList? parseRat? s
@@ -368,6 +376,17 @@ def handle (args : List String) : Option String :=
       match cs with
       | none => some "err index"
       | some cs => some (showDists (calcProbDists eps scheds.length cs var))
+  -- probdist1 … var i  →  calc_prob_dist(qope, i)
+  | ["probdist1", kind, flag, r, m, eps, states, povms, scheds, var, i] => do
+      let flag ← parseBool? flag; let r ← parseRat? r; let m ← parseNat? m; let eps ← parseRat? eps
+      let states ← parseVecs? states; let povms ← parsePovms? povms; let scheds ← parsePairs? scheds
+      let var ← parseVecL? var; let i ← parseNat? i
+      let cs ← coeffsOf kind flag r m states povms scheds
+      match cs with
+      | none => some "err index"
+      | some cs => match calcProbDist eps scheds.length cs var i with
+        | .ok d => some s!"ok {showVecs [d]}"
+        | .error e => some s!"err {e.toString}"
   -- predict: matA @ var + vecB without reshape
   | ["predict", kind, flag, r, m, states, povms, scheds, var] => do
       let flag ← parseBool? flag; let r ← parseRat? r; let m ← parseNat? m
